@@ -365,7 +365,16 @@ def to_expr(t):
 #        push_expr(t.em)
         return t
     elif type(t) == int or type(t) == ValueInt:
-        return expr(ExprLiteralModel(int(t), True, 32))
+        v = int(t)
+        if v >= -(1 << 31) and v < (1 << 31):
+            return expr(ExprLiteralModel(v, True, 32))
+        elif v >= -(1 << 63) and v < (1 << 63):
+            # An integer outside the 32-bit range keeps its value
+            return expr(ExprLiteralModel(v, True, 64))
+        elif v >= 0 and v < (1 << 64):
+            return expr(ExprLiteralModel(v, False, 64))
+        else:
+            raise Exception("Integer literal %d does not fit in 64 bits" % v)
     elif type(t) == float:
         return expr(ExprLiteralModel(int(round(t)), True, 32))
     elif isinstance(type(t), (EnumMeta,IntEnum)):
